@@ -109,82 +109,129 @@ func handlerCount(c Case) int {
 
 func gen(t *rapid.T) Case {
 	c := Case{}
-	n := rapid.IntRange(1, kit.Scale(30, 40)).Draw(t, "n")
+	// (rapid's integer draws favour small values; the maximum of two draws keeps shrinking
+	// towards small DAGs and still makes large ones frequent)
+	maxN := kit.Scale(30, 40)
+	n := max(rapid.IntRange(1, maxN).Draw(t, "n"), rapid.IntRange(1, maxN).Draw(t, "n2"))
 	c.Nodes = make([]NodeSpec, n)
 	for i := 0; i < n; i++ {
 		nd := &c.Nodes[i]
-		nd.Kind = "pb"
-		if i > 0 && rapid.IntRange(0, 3).Draw(t, "raw") == 0 {
-			nd.Kind = "raw"
-		}
+		nd.Kind = "pb" // childless nodes may become raw leaves below
 		nd.V1 = rapid.Bool().Draw(t, "v1")
-		okw := 14
-		if i == 0 {
-			okw = 60
-		}
-		switch s := rapid.IntRange(0, okw+6).Draw(t, "state"); {
-		case s <= 1:
-			nd.State = "missing"
-		case s == 2:
-			nd.State = "corrupt"
-		case s <= 6:
+		nd.State = "remote"
+		if rapid.IntRange(0, 5).Draw(t, "local") == 5 {
 			nd.State = "local"
-		default:
-			nd.State = "remote"
+		}
+	}
+	// failing blocks: none / one or two / roughly every 8th node
+	failKinds := []string{"missing", "missing", "corrupt"}
+	switch rapid.SampledFrom([]string{"sparse", "none", "dense", "sparse", "none"}).Draw(t, "failures") {
+	case "sparse":
+		for k := rapid.IntRange(1, 2).Draw(t, "nfail"); k > 0; k-- {
+			i := rapid.IntRange(0, n-1).Draw(t, "failidx")
+			if rapid.Bool().Draw(t, "fromend") {
+				i = n - 1 - i
+			}
+			c.Nodes[i].State = rapid.SampledFrom(failKinds).Draw(t, "failkind")
+		}
+	case "dense":
+		for i := range c.Nodes {
+			if rapid.IntRange(0, 7).Draw(t, "fails") == 7 {
+				c.Nodes[i].State = rapid.SampledFrom(failKinds).Draw(t, "failkind")
+			}
 		}
 	}
 	// a primary parent for most nodes, chosen close by so that the DAG gets deep
+	width := rapid.SampledFrom([]int{1, 2, 3, 4, 5, 6, 8, 10}).Draw(t, "width") // small: deep chains; large: bushy
+	parent := make([]int, n)
+	for i := range parent {
+		parent[i] = -1
+	}
 	for i := 1; i < n; i++ {
-		if rapid.IntRange(0, 9).Draw(t, "orphan") == 0 {
+		if rapid.IntRange(0, 19).Draw(t, "orphan") == 19 {
 			continue
 		}
-		lo := i - rapid.IntRange(1, 4).Draw(t, "back")
+		lo := i - rapid.IntRange(1, width).Draw(t, "back")
 		if lo < 0 {
 			lo = 0
 		}
 		p := lo
-		for p < i && c.Nodes[p].Kind != "pb" {
-			p++
-		}
-		if p == i {
-			p = 0
-		}
+		parent[i] = p
 		c.Nodes[p].Links = append(c.Nodes[p].Links, i)
 	}
-	// extra edges: sharing, shortcuts, duplicate links
+	// extra edges: sharing, duplicate links
 	extra := rapid.IntRange(0, n).Draw(t, "extra")
 	for k := 0; k < extra && n > 1; k++ {
 		p := rapid.IntRange(0, n-2).Draw(t, "from")
-		if c.Nodes[p].Kind != "pb" {
-			continue
-		}
 		q := rapid.IntRange(p+1, n-1).Draw(t, "to")
 		c.Nodes[p].Links = append(c.Nodes[p].Links, q)
 	}
+	// shortcuts from an ancestor (>= 2 levels up the primary chain) to a node: the node is then
+	// linked at two depths, and a depth-first walk usually meets the deeper occurrence first
+	for k := rapid.IntRange(0, 6).Draw(t, "shortcuts"); k > 0 && n > 2; k-- {
+		q := rapid.IntRange(2, n-1).Draw(t, "target")
+		a := parent[q]
+		for up := rapid.IntRange(1, 4).Draw(t, "up"); up > 0 && a > 0 && parent[a] >= 0; up-- {
+			a = parent[a]
+		}
+		if a >= 0 && a != parent[q] {
+			c.Nodes[a].Links = append(c.Nodes[a].Links, q)
+		}
+	}
 	for i := range c.Nodes {
-		if len(c.Nodes[i].Links) > 1 && rapid.Bool().Draw(t, "shuffle") {
+		if i > 0 && len(c.Nodes[i].Links) == 0 && rapid.Bool().Draw(t, "raw") {
+			c.Nodes[i].Kind = "raw"
+		}
+		if len(c.Nodes[i].Links) > 1 && rapid.IntRange(0, 2).Draw(t, "shuffle") == 0 {
 			c.Nodes[i].Links = rapid.Permutation(c.Nodes[i].Links).Draw(t, "order")
 		}
 	}
-	c.API = rapid.SampledFrom([]string{"walk", "walk", "walkdepth", "walkdepth", "fetch", "fetchdepth", "fetchdepth"}).Draw(t, "api")
-	if c.API == "walk" || c.API == "walkdepth" {
+	// height of the DAG (ignoring block states), to place depth limits where they cut
+	dist := map[int]int{0: 0}
+	height := 0
+	for queue := []int{0}; len(queue) > 0; queue = queue[1:] {
+		i := queue[0]
+		if c.Nodes[i].Kind != "pb" {
+			continue
+		}
+		for _, j := range c.Nodes[i].Links {
+			if _, ok := dist[j]; !ok {
+				dist[j] = dist[i] + 1
+				if dist[j] > height {
+					height = dist[j]
+				}
+				queue = append(queue, j)
+			}
+		}
+	}
+	c.API = rapid.SampledFrom([]string{"fetchdepth", "walkdepth", "walk", "fetch", "fetchdepth", "walkdepth", "walk"}).Draw(t, "api")
+	fetch := c.API == "fetch" || c.API == "fetchdepth"
+	if !fetch {
 		c.Getter = rapid.SampledFrom([]string{"direct", "direct", "dag"}).Draw(t, "getter")
 	}
 	c.Depth = -1
 	if c.API == "walkdepth" || c.API == "fetchdepth" {
-		c.Depth = rapid.SampledFrom([]int{-1, 0, 1, 1, 2, 2, 3, 3, 4, 5, 6}).Draw(t, "depth")
+		h := height
+		c.Depth = rapid.SampledFrom([]int{h - 1, h - 2, h - 1, h - 2, h - 3, h, -1, 0, 1, 2, 3, 4, 5, 6}).Draw(t, "depth")
+		c.Depth = max(-1, min(6, c.Depth))
 	}
-	switch cc := rapid.IntRange(0, 19).Draw(t, "concclass"); {
-	case cc < 5:
-		c.Conc = 0 // Walk: sequential; FetchGraph: Concurrent()
-	case cc < 9:
-		c.Conc = 1 // explicitly sequential (also for FetchGraph)
-	case cc < 11:
-		c.Conc = -1
-	case cc < 15:
-		c.Conc = rapid.IntRange(2, 4).Draw(t, "conc")
-	default:
-		c.Conc = rapid.IntRange(1, 32).Draw(t, "conc")
+	if rapid.Bool().Draw(t, "sequential") {
+		c.Conc = 1 // Concurrency(1): sequential also for FetchGraph
+		if !fetch && rapid.Bool().Draw(t, "noopt") {
+			c.Conc = 0
+		}
+	} else {
+		switch rapid.IntRange(0, 3).Draw(t, "concclass") {
+		case 0:
+			c.Conc = -1 // Concurrent()
+			if fetch && rapid.Bool().Draw(t, "noopt") {
+				c.Conc = 0 // FetchGraph's default
+			}
+		case 1:
+			c.Conc = rapid.IntRange(2, 4).Draw(t, "conc")
+		default:
+			c.Conc = rapid.IntRange(2, 32).Draw(t, "conc")
+		}
 	}
 	nh := rapid.SampledFrom([]int{0, 0, 1, 1, 1, 1, 1, 2, 2, 2, 3}).Draw(t, "nhandlers")
 	for i := 0; i < nh; i++ {
@@ -1137,7 +1184,7 @@ func run0(c Case) kit.Result {
 var spec = kit.Spec[Case]{
 	Prop: "C12", Name: "main",
 	Rule:  "random DAG (<=30, thorough <=40 nodes; dag-pb + raw leaves; sharing; missing/undecodable/already-local blocks) walked by Walk/WalkDepth/FetchGraph/FetchGraphWithDepthLimit with depth -1..6, concurrency none/default/1..32 and an ordered list of 0..3 error-handling options plus SkipRoot/WithProvider, compared with a reference BFS; non-trivial = a failing block is reached, or >=2 error-handling options are composed, or a node is linked at two different depths",
-	Quick: 1000, Thorough: 8000,
+	Quick: 2500, Thorough: 12000,
 	Gen: gen, Run: run, Journal: true,
 }
 
